@@ -448,6 +448,11 @@ func (x *Unit) lockOp(st *State, pc *preparedCall, name string, lock bool) {
 		nv = IntLit(0)
 	}
 	x.writeLV(st, &LV{kind: lvMap, parent: &LV{kind: lvGlobal, key: "lockHeld", typ: g.Typ}, idx: addr, typ: intT}, Val{nv, intT})
+	if !x.lockRelFact && x.lockRel0.S != "" {
+		x.lockRelFact = true
+		m := x.u.MapVal(x.lockRel0.T).S
+		x.fact(T{fmt.Sprintf("(forall ((a!lr Int)) (! (not (select %s a!lr)) :pattern ((select %s a!lr))))", m, m), SBool})
+	}
 	rg := x.ghostGet(st, "lockReleased")
 	if lock {
 		x.reacquireHavoc(st, pc, Select(x.u.MapVal(rg.T), addr))
